@@ -462,3 +462,8 @@ def nontrivial(case, result):
             a, b = signed(a, w * n), signed(b, w * n)
         return b != 0 and (a % b != 0 or (a < 0) != (b < 0))
     return len(toks) > 3
+
+
+def prebuild(root):
+    """translator: regenerate coq/Generated/Glue.v from /repo/src (proved equal to the model in Proofs/GlueTieC18.v)"""
+    return run_translator(root, "rs2v_glue.py", "C18")
